@@ -1,8 +1,6 @@
 (* interpreter/reconciler.go *)
 From NS Require Export Eval.
 
-Definition entry := (string * Z)%type.      (* Sender / Receiver *)
-Record posting := mkposting { psrc : string; pdst : string; pamt : Z; passet : string }.
 
 (* the KEPT branch: withhold [k] units from the senders next in line *)
 Fixpoint drop_units (k : Z) (S : list entry) : list entry :=
